@@ -203,6 +203,16 @@ class Run:
         elif cb["kind"] == "async":
             async def fn(*args):
                 await run.body_async(ctx, cb, len(args) > 0, *args)
+        if cb["kind"] == "sync" and cb["id"] % 4 == 3:
+            # a callable object (no __name__ / __qualname__) is a callback like any other
+            inner = fn
+
+            class CallableObject:
+                def __call__(self, *args):
+                    return inner(*args)
+            return CallableObject()
+        if cb["kind"] in ("sync", "async"):
+            return fn
         else:   # a plain function returning an awaitable: a coroutine object, or (odd ids) an object that is
                 # awaitable without being a coroutine
             def fn(*args):
